@@ -1764,7 +1764,136 @@ def run_front(ctx, cases):
             stats["api_model_evaluations_nearortho"] = stats.get("api_model_evaluations_nearortho", 0) + len(lst)
 
 
+# ------------------------------------------------------------------------------------------------
+#  named torsions as VALUES: every helper (phi psi omega chi1..chi5) x (periodic, opt) in {T,F}^2 on peptides whose bonds
+#  are cut by the faces of a cell -- against compute_dihedrals with the same flags and against the exact oracle
+def build_named_cases(ctx):
+    rng = ctx.rng
+    cases = []
+    for _ in range(6 if ctx.tier == "quick" else 150):
+        cases.append({"named": {"chains": rng.randint(1, 2), "max_res": rng.choice([3, 5]), "p_del": 0.0, "p_other": 0.0, "p_dup": 0.0, "p_alias": 0.0,
+                                "cell": rng.choice(["cubic", "ortho", "tric", "tric", "none"]), "F": rng.randint(1, 2),
+                                "rich": True, "seed": rng.randrange(1, 2 ** 31 - 1)}})
+    return cases
+
+
+RICH = ["ARG", "LYS", "MET", "GLU", "GLN", "ILE", "LEU", "HIS", "PHE", "THR", "SER", "CYS", "ASP", "PRO", "VAL"]
+
+
+def gen_named(gen):
+    """a peptide (residues with long side chains first, so that chi1..chi5 all occur) whose atoms form a random walk in
+    index order with steps of 0.02 of the smallest cell width, wrapped into the cell"""
+    rs = np.random.RandomState(gen["seed"])
+    chains = []
+    for _ in range(gen["chains"]):
+        ch = []
+        for ri in range(int(rs.randint(2, gen["max_res"] + 1))):
+            name = ["ARG", "LYS"][ri] if ri < 2 else RICH[rs.randint(len(RICH))]
+            ch.append({"name": name, "atoms": BACKBONE + SIDE[name]})
+        chains.append(ch)
+    n = sum(len(r["atoms"]) for ch in chains for r in ch)
+    box = make_box(rs, gen["cell"])
+    lmin = min(box[0][0], box[1][1], box[2][2]) if box else 3 * UNIT
+    frames = []
+    for f in range(gen["F"]):
+        X = np.zeros((n, 3), dtype=np.int64)
+        X[0] = rs.randint(-2 * UNIT, 2 * UNIT, size=3)
+        for k in range(1, n):
+            while True:
+                d = rs.randn(3)
+                step = np.round(d / np.linalg.norm(d) * rs.uniform(0.012, 0.02) * lmin).astype(np.int64)
+                if np.abs(step).max() > 0:
+                    break
+            X[k] = X[k - 1] + step
+        if box is not None:
+            frac = X.astype(np.float64) @ np.linalg.inv(np.array(box, dtype=np.float64))
+            X = X - np.floor(frac).astype(np.int64) @ np.array(box, dtype=np.int64)
+        frames.append(X)
+    return chains, np.array(frames), box
+
+
+def run_named(ctx, cases):
+    inp, payload, prep = {}, [], {}
+    for k, c in enumerate(cases):
+        chains, X, box = gen_named(c["named"])
+        prep[k] = (X, box)
+        inp["n%d_xyz" % k] = (X.astype(np.float64) / UNIT).astype(np.float32)
+        if box is not None:
+            inp["n%d_box" % k] = (np.array([box] * X.shape[0], dtype=np.float64) / UNIT).astype(np.float32)
+        payload.append({"id": k, "chains": chains, "has_box": box is not None})
+    tag = "%d_%d" % (len(cases), ctx.rng.randrange(10 ** 9))
+    ipath, opath = os.path.join(ctx.tmp, "nin_%s.npz" % tag), os.path.join(ctx.tmp, "nout_%s.npz" % tag)
+    np.savez(ipath, **inp)
+    res = ctx.run_impl("geom_impl.py", {"inputs": ipath, "outputs": opath, "geom": [], "topo": [], "front": [], "named": payload})
+    out = dict(np.load(opath)) if os.path.exists(opath) else {}
+    errors = res.get("errors", {})
+    found = ctx.notes.setdefault("coverage_extra", {}).setdefault("named_torsion_values_checked", {})
+    for k, c in enumerate(cases):
+        rec = dict(c)
+        if "n%d" % k in errors or str(k) not in res.get("named", {}):
+            ctx.count(rec, bucket="named-values")
+            ctx.fail("compute_<torsion> raised on a valid trajectory: %s" % errors.get("n%d" % k, "?").split(":")[0], rec, observed=errors.get("n%d" % k),
+                     expected="values", tags={"kind": "raises", "op": "named"})
+            continue
+        r = res["named"][str(k)]
+        X, box = prep[k]
+        lmax = max(max(abs(v) for v in row) for row in box) / UNIT if box else 0.0
+        done = False
+        for nm in NAMES:
+            if done:
+                break
+            idx = r["indices"][nm]
+            for per in (True, False):
+                for opt in (True, False):
+                    tagk = "%s_%d%d" % (nm, int(per), int(opt))
+                    bucket = "named-values/%s/periodic=%s,opt=%s/%s" % (nm, per, opt, c["named"]["cell"])
+                    if not r["same"].get(tagk, False):
+                        ctx.count({"c": rec, "t": tagk}, bucket=bucket)
+                        ctx.fail("md.compute_%s(periodic, opt) differs from compute_dihedrals over its own index list with the same flags" % nm, rec,
+                                 observed={"periodic": per, "opt": opt}, expected="bitwise identical arrays",
+                                 tags={"kind": "named_flags", "name": nm, "periodic": per, "opt": opt})
+                        done = True
+                        continue
+                    val = out["n%d_%s" % (k, tagk)]
+                    for f in range(X.shape[0]):
+                        for ti, tup in enumerate(idx):
+                            prs = tuple_pairs("dihedrals", tup)
+                            bv = bond_vectors(X[f], box, prs, per and box is not None)
+                            bv_other = bond_vectors(X[f], box, prs, (not per) and box is not None)
+                            if bv is None:
+                                continue
+                            v = value_of("dihedrals", bv)
+                            if v is None:
+                                continue
+                            bmin = math.sqrt(min(idot(b, b) for b in bv)) / UNIT
+                            tol = (C_DIH * EPS + (16 * EPS * lmax / bmin if per and box is not None else 0.0) + 16 * EPS * 4.0 / bmin) / v[1]
+                            if tol > 0.05:
+                                continue
+                            vo = value_of("dihedrals", bv_other) if bv_other is not None else None
+                            discr = vo is not None and adiff("dihedrals", v[0], vo[0]) > 8 * tol
+                            ctx.count({"c": rec, "t": tagk, "f": f, "q": tup}, nontrivial=discr, bucket=bucket)
+                            found[nm] = found.get(nm, 0) + 1
+                            got = float(val[f][ti])
+                            if adiff("dihedrals", got, v[0]) > tol:
+                                ctx.fail("md.compute_%s is not the IUPAC torsion of the (minimum-image) bond vectors of its documented atoms under the flags given" % nm,
+                                         rec, observed={"periodic": per, "opt": opt, "frame": f, "atoms": tup, "value": got},
+                                         expected={"value": v[0], "tol": tol, "value_with_periodic_negated": vo[0] if vo else None},
+                                         tags={"kind": "named_value", "name": nm, "periodic": per, "opt": opt})
+                                done = True
+                                break
+                        if done:
+                            break
+                    if done:
+                        break
+                if done:
+                    break
+
+
 def correspond(ctx):
+    nc = build_named_cases(ctx)
+    ctx.log("named-torsion value cases:", len(nc))
+    for s in range(0, len(nc), 50):
+        run_named(ctx, nc[s:s + 50])
     fc = build_front_cases(ctx)
     ctx.log("front-end cases:", len(fc))
     for s in range(0, len(fc), 400):
@@ -1789,6 +1918,7 @@ def search(ctx, broken):
         run_geom(ctx, g[s:s + 40])
     run_topo(ctx, build_topo_cases(ctx)[:200])
     run_front(ctx, build_front_cases(ctx))
+    run_named(ctx, build_named_cases(ctx))
 
 
 def replay(ctx, rec):
@@ -1803,6 +1933,8 @@ def replay(ctx, rec):
     c = rec["case"]
     if "front" in c:
         run_front(ctx, [c])
+    elif "named" in c:
+        run_named(ctx, [c])
     elif "topo" in c:
         run_topo(ctx, [c])
     else:
